@@ -267,7 +267,8 @@ def generate(R, tier, focus):
         oi = R.randrange(len(obs))
         nsim = R.randint(1, 12) if not thorough else R.choice((1, 5, 25, 100))
         op = {'op': 'TEST', 'test': test, 'obs': oi, 'seed': R.choice(seeds), 'nsim': nsim, 'fc': which,
-              'mode': 'rng', 'overrides': {}, 'p_overrides': {}}
+              'mode': 'rng', 'overrides': {}, 'p_overrides': {},
+              'seed_type': R.choice(('int', 'int', 'int', 'int64', 'uint32'))}
         if test in CAT_TESTS:
             op['seed'] = R.choice((0, 0, 1, 7, None))
             ops.append(op)
@@ -515,6 +516,13 @@ def predict_binary(test, rates2d, n_active, nsim, calls, injected, ctx, max_path
 
 # --------------------------------------------------------------------------- execution
 
+def typed_seed(seed, seed_type):
+    """the same seed value delivered as another integer type (numpy.random.seed accepts all of them)"""
+    if seed is None or seed_type in (None, 'int'):
+        return seed
+    return numpy.int64(seed) if seed_type == 'int64' else numpy.uint32(seed)
+
+
 def run_gridded_test(test, fc, obs, nsim, seed, random_numbers, ncol=None):
     from csep.core import poisson_evaluations as pe
     from csep.core import binomial_evaluations as be
@@ -647,7 +655,7 @@ def _execute(scn, ctx, rng, collect_results):
             if not obs_events:
                 continue
             rng.mark()
-            r = call(run_cat_test, test, scn, obs_events, seed)
+            r = call(run_cat_test, test, scn, obs_events, typed_seed(seed, op.get('seed_type')))
             if r[0] == 'budget':
                 ctx.violate('C06', 'liveness', test, {'op': oi})
                 return
@@ -683,7 +691,7 @@ def _execute(scn, ctx, rng, collect_results):
         if test in BINARY_TESTS and not perturbed and inject is None:
             budget = liveness_budget(test, rates, n_active, op['nsim'])
         rng.mark(u_over=u_over, p_over=p_over, budget=budget)
-        r = call(run_gridded_test, test, fc, obs_cat, op['nsim'], seed, inject, op.get('ncol'))
+        r = call(run_gridded_test, test, fc, obs_cat, op['nsim'], typed_seed(seed, op.get('seed_type')), inject, op.get('ncol'))
         calls = [c for c in rng.calls if c[0] != 'seed']
         n_seed_calls = sum(1 for c in rng.calls if c[0] == 'seed')
         if r[0] == 'budget':
